@@ -37,10 +37,7 @@ def caseMapOf (s : String) : Option CaseMap :=
   if s == "-" then some CaseMap.ascii
   else do
     let es ← (tokens s).mapM entryOf
-    let t := CaseMap.ofTable es
-    pure { toUpper := fun c => if c < 128 then CaseMap.ascii.toUpper c else t.toUpper c
-           toLower := fun c => if c < 128 then CaseMap.ascii.toLower c else t.toLower c
-           sigmaClass := fun c => if c < 128 then CaseMap.ascii.sigmaClass c else t.sigmaClass c }
+    pure (CaseMap.ofTable es).withAscii
 
 /-- a reply of the implementation used as an observation: `ok <value>` | `err` | `panic` -/
 def replyOf (s : String) : Option (R Value) :=
@@ -204,11 +201,12 @@ def handleOracle (law : String) (args : List String) : Option String :=
         let j ← replyOf j
         pure (firstFail [verdict "split_join" (j == .ok (.bytes (lossy s)))])
       | _, _ => pure "fails split_join:-"
-  | "affix", [v, s, "|", sw, ew, ct, swi, ewi, cti, dv, ds] => do
+  | "affix", [v, s, "|", sw, ew, ct, swi, ewi, cti, dv, ds, t] => do
     let v ← valueOfString v; let s ← valueOfString s
     let ew ← replyOf ew; let ct ← replyOf ct
     let ewi ← replyOf ewi; let cti ← replyOf cti
     let dv ← replyOf dv; let ds ← replyOf ds
+    let cm ← caseMapOf t
     match v, s, bytesOfR dv, bytesOfR ds with
     | .bytes v, .bytes s, some dv, some ds =>
       -- the chars view of both strings (what `contains` / `ends_with` compare)
@@ -222,13 +220,21 @@ def handleOracle (law : String) (args : List String) : Option String :=
       let swiOK := match swiR with
         | some (.ok (.bool b)) => C28.specStartsWith dv ds b
         | _ => false
+      -- where `starts_with_ci_spec_partial` / `starts_with_ci_sound_partial` do not apply
+      let swiCls :=
+        if swiR == some .panic then "D_starts_with_panic"
+        else if !bothValid then "D_starts_with_invalid_utf8"
+        else if !(C28.noSigma lv && C28.noSigma ls) then "D_starts_with_final_sigma"
+        else if !(C28.singleLower cm lv && C28.singleLower cm ls) && swiR == some (.ok (.bool false)) then
+          "D_starts_with_lower_expansion"
+        else "-"
       pure (firstFail [
         verdict "affix" ((boolOfR ew).any (C28.specEndsWith lv ls)),
         verdict "affix" ((boolOfR ct).any (C28.specContains lv ls)),
         verdict "affix" swOK (if bothValid then "-" else "D_starts_with_raw_bytes"),
         verdict "affix_ci" ((boolOfR ewi).any (C28.specEndsWith dv ds)),
         verdict "affix_ci" ((boolOfR cti).any (C28.specContains dv ds)),
-        verdict "affix_ci" swiOK (if swiR == some .panic then "D_starts_with_panic" else "D_starts_with_charwise")])
+        verdict "affix_ci" swiOK swiCls])
     | _, _, _, _ => none
   | "truncate", [s, l, sfx, "|", lt, ls, t, l0] => do
     let s ← valueOfString s; let l ← valueOfString l; let sfx ← optArg sfx
